@@ -153,3 +153,125 @@ class ancestry(ContractBase):
 
 def anc_set(v, n):
     return v.f('Node.ancestry', n)
+
+
+# ------------------------------------------------------------------------------------------------ Node.add, _feedback
+def _element_append(ex, recv, args, kwargs, line):
+    """xml.etree Element.append: the child list gains the element (ELEMENT model: child set)"""
+    kids = C(FieldLoc_('Node.kids', recv.t), SetOf(NODE))
+    ex.call_method(kids, 'add', [args[0]], {}, line)
+    return None
+
+
+W.methods[('Node', 'append')] = _element_append
+w_kid = z3.Function('w_child_tagged', SN.sort(), ATOM.sort(), NODE.sort())
+
+
+def has_child_tagged(c, S, tg):
+    return And(S[w_kid(S, tg)], tag(c.old, w_kid(S, tg)) == tg)
+
+
+def choice_kid(c):
+    S, k = z3.Const('ch_S', SN.sort()), z3.Const('ch_k', NODE.sort())
+    return [QHyp([S, k], Implies(S[k], has_child_tagged(c, S, tag(c.old, k))), 'choice.child-tag')]
+
+
+@contract(W, 'dawgie/pl/dag.py', 'Node.add', props=['C09'])
+class node_add(ContractBase):
+    """an edge is inserted once: the child list never holds two children with one tag"""
+    params = {'self': NODE, 'item': NODE}
+    modifies = ['Node.kids']
+    assumes = [choice_kid]
+    no_reach = True
+
+    def ensures(c):
+        me, item = c['self'], c['item']
+        n, x = c.sk('n', NODE), c.sk('x', NODE)
+        k0, k1 = c.old.f('Node.kids', me), c.cur.f('Node.kids', me)
+        dup = has_child_tagged(c, k0, tag(c.old, item))
+        return {'edge-inserted-unless-a-child-has-that-tag': k1[x] == Or(k0[x], And(Not(dup), x == item)),
+                'other-nodes-untouched': Implies(n != me, c.cur.f('Node.kids', n) == c.old.f('Node.kids', n))}
+
+
+from .c02_update import VREF, vref_name        # noqa: E402  (value references and their full names)
+FBMAP = MapOf(ATOM, ATOM)
+fb_of = z3.Function('declared_feedback', Ref('Alg').sort(), SetOf(VREF).sort())       # as_vref(alg.feedback())
+W.methods[('Alg', 'feedback')] = lambda ex, r, a, k, l: r
+SV_, SP_ = SetOf(VREF), SetOf(Tup(ATOM, NODE))
+w_cons = z3.Function('w_consumer_of', SN.sort(), ATOM.sort(), ATOM.sort(), NODE.sort())      # some node among S tagged t that declares feedback k
+w_cons_all = z3.Function('w_listed_consumer_of', ATOM.sort(), ATOM.sort(), NODE.sort())
+w_cref = z3.Function('w_feedback_ref_named', SV_.sort(), ATOM.sort(), VREF.sort())    # some reference among R with full name k
+
+
+def ref_named(R, k):
+    return And(R[w_cref(R, k)], vref_name(w_cref(R, k)) == k)
+
+
+def consumed_by(c, S, k, t):
+    """some node among S carries tag t and declares a feedback reference with full name k"""
+    m = w_cons(S, k, t)
+    return And(S[m], tag(c.old, m) == t, ref_named(fb_of(c.old.f('Node.alg', m)), k))
+
+
+def consumed(c, k, t):
+    """... some node of the name table"""
+    fl = flat_of(c)
+    m = w_cons_all(k, t)
+    return And(fl[tag(c.old, m)] == FLAT.opt.some(m), tag(c.old, m) == t, ref_named(fb_of(c.old.f('Node.alg', m)), k))
+
+
+def choice_fb(c):
+    fl = flat_of(c)
+    S, R = z3.Const('ch_S', SN.sort()), z3.Const('ch_R', SV_.sort())
+    m, r, k = z3.Const('ch_m', NODE.sort()), z3.Const('ch_r', VREF.sort()), z3.Const('ch_k', ATOM.sort())
+    declares = ref_named(fb_of(c.old.f('Node.alg', m)), k)
+    return [QHyp([R, r], Implies(R[r], ref_named(R, vref_name(r))), 'choice.ref'),
+            QHyp([S, m, k], Implies(And(S[m], declares), consumed_by(c, S, k, tag(c.old, m))), 'choice.consumer'),
+            QHyp([m, k], Implies(And(fl[tag(c.old, m)] == FLAT.opt.some(m), declares), consumed(c, k, tag(c.old, m))), 'choice.consumer-listed')]
+
+
+@contract(W, 'dawgie/pl/dag.py', 'Construct._feedback', props=['C09'])
+class feedback_(ContractBase):
+    """feedback references are recorded in the node's `feedback` attribute and in the feedback map only:
+    they never become child/parent (ordering) edges, and every fed-back value is mapped to one of its consumers"""
+    params = {'self': CONSTRUCT}
+    modifies = ['Node.feedback', 'Construct._feedbacks']           # not Node.kids, not Node.parents
+    externs = {'dawgie.util.as_vref': Extern(fn=lambda ex, a, k, e: ex.newbox(fb_of(ex.to_z3(a[0], Ref('Alg'))), SetOf(VREF))),
+               'dawgie.util.vref_as_name': Extern(fn=lambda ex, a, k, e: V(vref_name(ex.to_z3(a[0], VREF)), ATOM))}
+    assumes = [choice_fb, lambda c: wellformed(c)[:1]]
+    no_reach = True
+
+    def requires(c):
+        fl = flat_of(c)
+        n, r = c.sk('rn', NODE), c.sk('rr', VREF)
+        listed = fl[tag(c.old, n)] == FLAT.opt.some(n)
+        return {'fed-back-values-are-catalogued': Implies(And(listed, fb_of(c.old.f('Node.alg', n))[r]), Not(FLAT.opt.is_none(fl[vref_name(r)])))}
+
+    @staticmethod
+    def _spec(c, handled, mapped):
+        """handled(n, r): reference r of node n has been recorded so far; mapped(k, t): so far some handled node tagged t
+        declared a feedback reference named k"""
+        fl = flat_of(c)
+        me = c['self']
+        n, r, k = c.sk('n', NODE), c.sk('r', VREF), c.sk('k', ATOM)
+        F0, F1 = c.old.f('Construct._feedbacks', me), c.cur.f('Construct._feedbacks', me)
+        declares = fb_of(c.old.f('Node.alg', n))[r]
+        target = FLAT.opt.val(fl[vref_name(r)])
+        return {'consumer-recorded': Implies(And(handled(n, r), declares), And(Not(FBMAP.opt.is_none(F1[vref_name(r)])), c.cur.f('Node.feedback', n)[target])),
+                'mapped-to-a-consumer': Implies(Not(FBMAP.opt.is_none(F1[k])), Or(F1[k] == F0[k], mapped(k, FBMAP.opt.val(F1[k])))),
+                'kept': Implies(Not(FBMAP.opt.is_none(F0[k])), Not(FBMAP.opt.is_none(F1[k])))}
+
+    def ensures(c):
+        fl = flat_of(c)
+        listed = lambda n, r: fl[tag(c.old, n)] == FLAT.opt.some(n)
+        return feedback_._spec(c, listed, lambda k, t: consumed(c, k, t))
+
+    def _inv_nodes(c):
+        return feedback_._spec(c, lambda n, r: c.done[n], lambda k, t: consumed_by(c, c.done, k, t))
+
+    def _inv_refs(c):
+        outer, node = c.outer_done('for node in self._flat.values()'), c.loc('node')
+        return feedback_._spec(c, lambda n, r: Or(outer[n], And(n == node, c.done[r])),
+                               lambda k, t: Or(consumed_by(c, outer, k, t), And(t == tag(c.old, node), ref_named(c.done, k))))
+    loops = {'for node in self._flat.values()': Loop(inv=_inv_nodes, modifies=['Node.feedback', 'Construct._feedbacks']),
+             'for vref in dawgie.util.as_vref(': Loop(inv=_inv_refs, modifies=['Node.feedback', 'Construct._feedbacks'])}
